@@ -113,7 +113,12 @@ fn no_exclusion(_: simtypes::Op, _: &[&[u8]], _: &simtypes::Out, _: &simtypes::O
 fn exclude_for_pinned(op: simtypes::Op, args: &[&[u8]], a: &simtypes::Out, b: &simtypes::Out) -> bool {
     use simtypes::{Codec, Op, Ty};
     let byte_codec = |c: u8| matches!(Codec::from_u8(c), Some(Codec::Bytes | Codec::BytesVec | Codec::BytesRefVec | Codec::BytesBox | Codec::Be | Codec::Le));
+    // the old release's human-readable decoders insist on BORROWED strings (fixed finding F13 for the share types; its
+    // curve crate does the same for scalars and points): reading through a reader or a parsed document is not comparable
+    let front_end = |c: u8| matches!(Codec::from_u8(c), Some(Codec::JsonReader | Codec::JsonValue));
     match op {
+        Op::Recode if args.len() >= 3 && (front_end(args[1][0]) || front_end(args[2][0])) => true,
+        Op::ValueEq if args.len() >= 4 && (front_end(args[1][0]) || front_end(args[3][0])) => true,
         // SecretKeyEnum byte forms (old release writes a tag its own parser rejects)
         Op::Recode => args.len() >= 3 && args[0] == [Ty::SecretKeyEnum as u8] && (byte_codec(args[1][0]) || byte_codec(args[2][0])),
         Op::ValueEq => args.len() >= 4 && args[0] == [Ty::SecretKeyEnum as u8] && (byte_codec(args[1][0]) || byte_codec(args[3][0])),
